@@ -592,3 +592,113 @@ Proof.
   assert (HN : INR na <> 0%R) by (apply not_0_INR; lia).
   field. assumption.
 Qed.
+
+(* ------------------------------------------------------------------ op histories on one FunctionSignal *)
+Lemma n_buffer_zero dt : n_buffer 0 dt = 0%nat.
+Proof.
+  unfold n_buffer. replace (0 / dt)%R with (INR 0) by (simpl; unfold Rdiv; ring).
+  rewrite Int_part_INR. simpl Z.of_nat.
+  destruct (Req_EM_T (0 - 0 * dt) 0) as [_|H]; [reflexivity|]. exfalso. apply H. ring.
+Qed.
+
+Lemma apply_filters_length dt values fs : length (apply_filters dt values fs) = length values.
+Proof.
+  unfold apply_filters. cbv zeta.
+  rewrite map_length, firstn_length, ifft_l_length, map2_length, all_filters_length, fft_l_length,
+    map_length, app_length, zeros_length. lia.
+Qed.
+
+Lemma apply_filters_nth dt values fs n : (n < length values)%nat ->
+  nth n (apply_filters dt values fs) 0%R
+  = filter_H (length values) (fun k => nth k (all_filters (2 * length values) dt (rev fs)) 0) (sigfn values) n.
+Proof.
+  intros Hn. unfold apply_filters, filter_H. cbv zeta.
+  set (N := length values).
+  set (vals := map RtoC (values ++ zeros N)).
+  assert (Lv : length vals = (2 * N)%nat).
+  { unfold vals. rewrite map_length, app_length, zeros_length. unfold N. lia. }
+  change 0%R with (Re 0) at 1. rewrite map_nth.
+  rewrite nth_firstn by assumption.
+  set (AF := all_filters (2 * N) dt (rev fs)).
+  assert (LA : length AF = (2 * N)%nat) by apply all_filters_length.
+  set (prod := map2 Cmult AF (fft_l vals)).
+  assert (Lp : length prod = (2 * N)%nat).
+  { unfold prod. rewrite map2_length, LA, fft_l_length, Lv. lia. }
+  rewrite nth_ifft_l by lia. rewrite Lp. f_equal.
+  apply idft_ext. intros k Hk. unfold prod.
+  rewrite (nth_map2 _ _ _ _ (RtoC 0) (RtoC 0)) by (rewrite ?LA, ?fft_l_length; lia).
+  f_equal. rewrite nth_fft_l by lia. rewrite Lv. apply dft_ext. intros m Hm. apply nth_padded.
+Qed.
+
+Lemma nth_map_scaled c (l : list R) i : nth i (map (fun v => (v * c)%R) l) 0%R = (nth i l 0 * c)%R.
+Proof.
+  revert i. induction l as [|x l IH]; intros [|i]; simpl; try ring. apply IH.
+Qed.
+
+Lemma sigfn_scaled c values i : sigfn (map (fun v => (v * c)%R) values) i = (c * sigfn values i + 0 * sigfn values i)%R.
+Proof. unfold sigfn. rewrite nth_map_scaled. ring. Qed.
+
+(* scaling the samples commutes with any stack of filters *)
+Lemma apply_filters_scaled dt values fs c n : (n < length values)%nat ->
+  nth n (apply_filters dt (map (fun v => (v * c)%R) values) fs) 0%R = (c * nth n (apply_filters dt values fs) 0)%R.
+Proof.
+  intros Hn. rewrite !apply_filters_nth by (rewrite ?map_length; assumption). rewrite map_length.
+  rewrite (filter_H_ext _ _ _ (fun i => (c * sigfn values i + 0 * sigfn values i)%R)) by (intros; apply sigfn_scaled).
+  rewrite filter_H_linear. ring.
+Qed.
+
+Definition fs_run (st : fs_state) (ops : list sig_op) : fs_state := fold_left fs_step ops st.
+
+Fixpoint scale_product (ops : list sig_op) : R :=
+  match ops with
+  | [] => 1
+  | OpScale c :: r => (c * scale_product r)%R
+  | OpDiv c :: r => (/ c * scale_product r)%R
+  | _ :: r => scale_product r
+  end.
+
+Fixpoint filters_of (ops : list sig_op) : list ((R -> C) * bool) :=
+  match ops with
+  | [] => []
+  | OpFilter g fr :: r => (g, fr) :: filters_of r
+  | _ :: r => filters_of r
+  end.
+
+(* whatever the order of reads, scalings and filters, the state is (product of the scalings, filters in order) *)
+Lemma fs_run_state ops : forall st,
+  fs_factor (fs_run st ops) = (fs_factor st * scale_product ops)%R
+  /\ fs_filters (fs_run st ops) = fs_filters st ++ filters_of ops.
+Proof.
+  induction ops as [|op r IH]; intros st; simpl.
+  - split; [ring | rewrite app_nil_r; reflexivity].
+  - destruct (IH (fs_step st op)) as [F1 F2]. unfold fs_run in *. simpl. rewrite F1, F2.
+    destruct op; simpl; split; try ring; try reflexivity; try (rewrite <- app_assoc; reflexivity).
+    unfold Rdiv. ring.
+Qed.
+
+Lemma fs_read_nth times fvals st n : length fvals = length times -> (n < length times)%nat ->
+  nth n (fs_read times fvals st) 0%R
+  = match fs_filters st with
+    | [] => (nth n fvals 0 * fs_factor st)%R
+    | _ => (fs_factor st * nth n (apply_filters (sig_dt times) fvals (fs_filters st)) 0)%R
+    end.
+Proof.
+  intros L Hn. unfold fs_read, function_signal_values. cbv zeta. rewrite n_buffer_zero. simpl skipn.
+  destruct (fs_filters st) as [|f r] eqn:E.
+  - rewrite nth_firstn by assumption. apply nth_map_scaled.
+  - rewrite nth_firstn by assumption. apply apply_filters_scaled. lia.
+Qed.
+
+(* the values read after ANY history of filters, in-place scalings and reads are the product of the scalings times the
+   stack of the history's filters applied to the function's samples *)
+Lemma fs_history_lemma times fvals ops n : length fvals = length times -> (n < length times)%nat ->
+  nth n (fs_read times fvals (fs_run fs_init ops)) 0%R
+  = (scale_product ops * nth n (fs_read times fvals {| fs_factor := 1; fs_filters := filters_of ops |}) 0)%R.
+Proof.
+  intros L Hn. rewrite !fs_read_nth by assumption.
+  destruct (fs_run_state ops fs_init) as [F1 F2]. rewrite F1, F2. simpl fs_factor. simpl fs_filters.
+  destruct (filters_of ops); simpl app; cbv iota; ring.
+Qed.
+
+Example history_example : scale_product [OpRead; OpScale 3; OpFilter (fun _ => RtoC 1) true; OpDiv 2; OpRead] = (3 * (/ 2 * 1))%R.
+Proof. reflexivity. Qed.
